@@ -75,35 +75,39 @@ Proof.
   assert (Hfind : forall l name e, find l name = Some e -> In e l).
   { induction l as [|x r IH]; intros name e H; [discriminate|]. simpl in H.
     destruct (String.eqb (e_name x) name); [inversion H; left; reflexivity|right; eapply IH; eauto]. }
-  destruct c; simpl.
+  assert (Hcore : forall e start n fs ns,
+            In e (s_ents s) -> is_u64 start -> is_u64 n ->
+            slice_guard SliceSub start n (Z.of_nat (List.length (e_vals e))) = true ->
+            dofield_guard 8 8 (swrap start) n = Accept fs ns ->
+            (0 <=? fs) && (fs + ns <=? Z.of_nat (List.length (e_vals e))) = true).
+  { intros e start n fs ns Hin Hs Hn Hsg Hdg.
+    pose proof (Hlen e Hin) as Hl.
+    assert (Hl64 : Z.of_nat (List.length (e_vals e)) < two64) by (unfold two63, two64 in *; lia).
+    pose proof (slice_sub_sound start n _ Hs Hn (length_u64 _ Hl64) Hsg) as Hb.
+    assert (is_i64 start) by (unfold is_i64, is_u64 in *; unfold two63 in *; lia).
+    rewrite swrap_id in Hdg by assumption.
+    pose proof (dofield_guard_sound 8 8 start n _ _ ltac:(lia) ltac:(lia) H Hn Hdg) as [Hfs [Hns _]].
+    subst fs. apply andb_true_iff. split; apply Z.leb_le; unfold is_u64 in *; lia. }
+  destruct c; unfold step.
   - destruct (Hp _ _ _ _ eq_refl) as [Hs Hn].
     destruct (find (s_ents s) name) as [e|] eqn:Ef; [|discriminate].
-    pose proof (Hlen e (Hfind _ _ _ Ef)) as Hl.
-    repeat match goal with |- context [if ?x then _ else _] => destruct x eqn:? end; simpl; try discriminate.
-    + destruct (dofield_guard 8 8 (swrap start) n) eqn:Eg; simpl; try discriminate.
-      repeat match goal with |- context [if ?x then _ else _] => destruct x eqn:? end; simpl; try discriminate.
-      exfalso.
-      apply negb_false_iff in Heqb1.
-      pose proof (slice_sub_sound start n _ Hs Hn (length_u64 _ ltac:(unfold two63, two64 in *; lia)) Heqb1) as Hb.
-      assert (is_i64 start) by (unfold is_i64, is_u64 in *; unfold two63 in *; lia).
-      rewrite swrap_id in Eg by assumption.
-      pose proof (dofield_guard_sound 8 8 start n _ _ ltac:(lia) ltac:(lia) H Hn Eg) as [Hfs [Hns _]].
-      subst first_samp. apply andb_false_iff in Heqb4.
-      destruct Heqb4 as [Hx|Hx]; [apply Z.leb_gt in Hx|apply Z.leb_gt in Hx]; unfold is_u64 in *; lia.
+    destruct (negb ((e_kind e =? K_CONST) || (e_kind e =? K_CARRAY))); [discriminate|].
+    destruct (negb (s_rw s)); [discriminate|].
+    destruct (slice_guard SliceSub start n (Z.of_nat (List.length (e_vals e)))) eqn:Esg; [|discriminate].
+    cbv beta iota zeta. unfold negb.
+    destruct (MAXLVL <=? s_lvl s + 1); [discriminate|].
+    destruct (dofield_guard 8 8 (swrap start) n) as [|fs ns] eqn:Eg; [discriminate|].
+    destruct (fmt_protected s (e_frag e)); [discriminate|].
+    rewrite (Hcore e start n fs ns (Hfind _ _ _ Ef) Hs Hn Esg Eg). discriminate.
   - destruct (Hg _ _ _ eq_refl) as [Hs Hn].
     destruct (find (s_ents s) name) as [e|] eqn:Ef; [|discriminate].
-    pose proof (Hlen e (Hfind _ _ _ Ef)) as Hl.
-    repeat match goal with |- context [if ?x then _ else _] => destruct x eqn:? end; simpl; try discriminate.
-    + destruct (dofield_guard 8 8 (swrap start) n) eqn:Eg; simpl; try discriminate.
-      repeat match goal with |- context [if ?x then _ else _] => destruct x eqn:? end; simpl; try discriminate.
-      exfalso.
-      apply negb_false_iff in Heqb0.
-      pose proof (slice_sub_sound start n _ Hs Hn (length_u64 _ ltac:(unfold two63, two64 in *; lia)) Heqb0) as Hb.
-      assert (is_i64 start) by (unfold is_i64, is_u64 in *; unfold two63 in *; lia).
-      rewrite swrap_id in Eg by assumption.
-      pose proof (dofield_guard_sound 8 8 start n _ _ ltac:(lia) ltac:(lia) H Hn Eg) as [Hfs [Hns _]].
-      subst first_samp. apply andb_false_iff in Heqb3.
-      destruct Heqb3 as [Hx|Hx]; [apply Z.leb_gt in Hx|apply Z.leb_gt in Hx]; unfold is_u64 in *; lia.
+    destruct (negb ((e_kind e =? K_CONST) || (e_kind e =? K_CARRAY))); [discriminate|].
+    destruct (slice_guard SliceSub start n (Z.of_nat (List.length (e_vals e)))) eqn:Esg; [|discriminate].
+    cbv beta iota zeta. unfold negb.
+    destruct (MAXLVL <=? s_lvl s + 1); [discriminate|].
+    destruct (swrap start =? GD_HERE); [discriminate|].
+    destruct (dofield_guard 8 8 (swrap start) n) as [|fs ns] eqn:Eg; [discriminate|].
+    rewrite (Hcore e start n fs ns (Hfind _ _ _ Ef) Hs Hn Esg Eg). discriminate.
   - repeat match goal with |- context [match ?x with _ => _ end] => destruct x eqn:? end; simpl; discriminate.
   - repeat match goal with |- context [match ?x with _ => _ end] => destruct x eqn:? end; simpl; discriminate.
   - repeat match goal with |- context [match ?x with _ => _ end] => destruct x eqn:? end; simpl; discriminate.
